@@ -129,7 +129,23 @@ CHECKS["C14"] = {
     "technique": "stateful / model-based property testing (rapid) against a reference map, with a PLAIN-vs-LOGIN differential",
 }
 
+CHECKS["C04"] = {
+    "title": "routing follows the documented precedence",
+    "go": GO,
+    "units": [
+        {"name": "msgpipeline", "pkg": "internal/msgpipeline", "run": "^TestVerifC04",
+         "overlay": {"verif_c04_test.go": "harness/C04/routing_test.go", "verif_common_test.go": "harness/shared/msgpipeline_common_test.go"}},
+    ],
+    "quick": {"n": 40000, "shards": 8},
+    "thorough": {"n": 1600000, "shards": 16},
+    "level_text": "randomised search (rapid) over pipeline configurations generated from the directive grammar and envelopes over a small address alphabet with "
+                  "spelling variants, loaded and executed through the real parsers, replace_rcpt modifier and nested pipelines; oracle = independent model of the "
+                  "documented precedence on base identities (selection, rewriting scopes, reject replies, load-time completeness).",
+    "level_note": "tables are harness modules with pre-normalised keys; envelopes pass address.CleanDomain first (documented precondition of the delivery interface)",
+    "technique": "property-based testing (rapid, grammar-based configuration generator) against an independent reference model of the documentation",
+}
+
 # properties deliberately not claimed: {"property_id":..., "reason":...}
 NOT_APPLICABLE = []
 
-FIX_COMMITS = ["b0fbfbf", "ce16772", "79536cb", "9da7ceb", "ba9a898", "cd17c24", "0f579ef", "cfad1cd", "1450983", "0eb6137", "4ba5ca6"]
+FIX_COMMITS = ["b0fbfbf", "ce16772", "79536cb", "9da7ceb", "ba9a898", "cd17c24", "0f579ef", "cfad1cd", "1450983", "0eb6137", "4ba5ca6", "2f36527"]
